@@ -96,13 +96,23 @@ def put (m : Mem) (a : Nat) (bs : Bytes) : Mem := m.take a ++ bs ++ m.drop (a + 
 
 /-! ### clock_time_get -/
 
-/-- `convertTimespec`: `t.tv_sec * NSEC_PER_SEC + t.tv_nsec` in 64-bit signed arithmetic
-    (`time_t`, `long`, `long long` are all 64 bits here); signed overflow is undefined -/
-def convertTimespec (sec nsec : Int) : Out Int :=
-  let prod := sec * (Gen.WasiPath.nsecPerSec : Int)
-  if prod < -9223372036854775808 ∨ 9223372036854775807 < prod then .ub .signedOverflow else
-  let s := prod + nsec
+/-- `a·x + b·y` in 64-bit signed arithmetic (`time_t`, `long`, `long long` are all 64 bits here); signed
+    overflow is undefined -/
+def scaledSum (a : Nat) (x : Int) (b : Nat) (y : Int) : Out Int :=
+  let p1 := x * (a : Int)
+  if p1 < -9223372036854775808 ∨ 9223372036854775807 < p1 then .ub .signedOverflow else
+  let p2 := y * (b : Int)
+  if p2 < -9223372036854775808 ∨ 9223372036854775807 < p2 then .ub .signedOverflow else
+  let s := p1 + p2
   if s < -9223372036854775808 ∨ 9223372036854775807 < s then .ub .signedOverflow else .val s
+
+/-- `convertTimespec`: `t.tv_sec * NSEC_PER_SEC + t.tv_nsec` — the two scale factors are regenerated -/
+def convertTimespec (sec nsec : Int) : Out Int :=
+  scaledSum Gen.WasiPath.timespecSecScale sec Gen.WasiPath.timespecNsecScale nsec
+
+/-- `convertTimeval`: `t.tv_sec * NSEC_PER_SEC + t.tv_usec * NSEC_PER_USEC` (fallback-timer configuration) -/
+def convertTimeval (sec usec : Int) : Out Int :=
+  scaledSum Gen.WasiPath.timevalSecScale sec Gen.WasiPath.timevalUsecScale usec
 
 /-- two's complement image of an `I64` for `i64_store` -/
 def i64Bits (v : Int) : Nat := (v % 18446744073709551616).toNat
@@ -125,6 +135,20 @@ def clockTimeGet (host : HostClock) (clockID precision : Nat) (mem : Mem) (resul
     | .inl e => .val (wasiErrno e, mem)
     | .inr (sec, nsec) => do
       let r ← convertTimespec sec nsec
+      let mem ← i64Store mem resultPtr (i64Bits r)
+      .val (Gen.WasiPath.errnoSuccess, mem)
+
+/-- clock_time_get of a library built with -DWASI_FALLBACK_TIMERS_ENABLED=1 (no POSIX timers): the realtime
+    clock from `gettimeofday`, the process CPU time from `getrusage` (user + system), both `struct timeval`
+    converted by `convertTimeval`; every other id is rejected.  `host call` answers (seconds, microseconds). -/
+def clockTimeGetFallback (host : HostClock) (clockID : Nat) (mem : Mem) (resultPtr : Nat) : Out (Nat × Mem) :=
+  match Gen.WasiPath.fallbackClockTable.find? (fun r => r.1 == clockID) with
+  | none => .val (Gen.WasiPath.fallbackClockDefaultErrno, mem)
+  | some (_, call) =>
+    match host call with
+    | .inl e => .val (wasiErrno e, mem)
+    | .inr (sec, usec) => do
+      let r ← convertTimeval sec usec
       let mem ← i64Store mem resultPtr (i64Bits r)
       .val (Gen.WasiPath.errnoSuccess, mem)
 
